@@ -11,7 +11,8 @@ pub fn validate_code(ctx: &Context, input: &DeriveInput, bytes_ident: &TokenStre
             use ::flatty::{traits::*, error::{Error, ErrorKind}};
             <#tag_type>::validate_unchecked(#bytes_ident)?;
             let tag = <#tag_type>::from_bytes_unchecked(#bytes_ident);
-            if *tag < #var_count {
+            // Compared in `u64`: the variant count itself need not fit into the tag type (256 variants, `u8` tag).
+            if (*tag as u64) < #var_count {
                 Ok(())
             } else {
                 Err(Error {
